@@ -108,6 +108,14 @@ static inline bool KeyList_isEmpty(const KeyList *l) { return !l->nonempty; }
 /* ---- QList<QString> (owner JIDs): witness view --------------------------------------------------------------------------- */
 typedef struct OwnerList { bool has_o, nonempty; } OwnerList;
 static inline void OwnerList_ctor(OwnerList *r) { r->has_o = false; r->nonempty = false; }
+static inline bool OwnerList_contains(const OwnerList *l, qstr owner)
+{
+  if (owner == g_o) return l->has_o;
+  bool r = nondet_bool();                                   /* membership of an owner other than the witness: not tracked */
+  __CPROVER_assume(!r || l->nonempty);
+  return r;
+}
+static inline bool OwnerList_isEmpty(const OwnerList *l) { return !l->nonempty; }
 #define OL_EQ(a, b) (IFF((a).has_o, (b).has_o) && IFF((a).nonempty, (b).nonempty))
 
 /* ---- QMultiHash<QString, QByteArray> (owner JID -> key id): witness view ---------------------------------------------------
@@ -144,10 +152,18 @@ static inline bool KeySet_contains(const KeySet *s, qstr owner, qkey key)
 
 /* ---- QHash<QString, QMultiHash<QString, QByteArray>>: encryption -> keys (the "modified keys" of a setTrustLevel) -------------
  * witness view: the keys listed under encryption `enc`; nothing under any other encryption */
-typedef struct ModifiedKeys { qstr enc; KeySet v; } ModifiedKeys;
+typedef struct ModifiedKeys { qstr enc; KeySet v; bool set; KeySet other; } ModifiedKeys;
 static inline void ModifiedKeys_value(KeySet *r, const ModifiedKeys *m, qstr encryption)
 {
   if (encryption == m->enc) *r = m->v; else KeySet_ctor(r);
+}
+/* default construction and operator[] (as used by the memory storage to collect the modified keys): the first encryption
+   indexed becomes the one the view follows; items under any other encryption go to a sink */
+static inline void ModifiedKeys_ctor(ModifiedKeys *m) { m->enc = 0; m->set = false; KeySet_ctor(&m->v); KeySet_ctor(&m->other); }
+static inline KeySet *ModifiedKeys_index(ModifiedKeys *m, qstr encryption)
+{
+  if (!m->set) { m->set = true; m->enc = encryption; }
+  return encryption == m->enc ? &m->v : &m->other;
 }
 static inline bool ModifiedKeys_isEmpty(const ModifiedKeys *m) { return !m->v.nonempty; }
 static inline void sig_trustLevelsChanged(const QXmppAtmManager *self, const ModifiedKeys *modifiedKeys) { }
